@@ -256,17 +256,20 @@ class _ExpandFirstInput(RewriteRuleClassBase):
         self._op_type = op_type
 
     def pattern(self, op, x, shape, y):
-        return getattr(op, self._op_type)(op.Expand(x, shape), y)
+        return getattr(op, self._op_type)(op.Expand(x, shape), y, _outputs=["binary_out"])
 
-    def check(self, context, x: ir.Value, shape: ir.Value, y: ir.Value) -> MatchResult:
+    def check(self, context, x: ir.Value, shape: ir.Value, y: ir.Value, **_) -> MatchResult:
         expand_output = context.root.inputs[0] if context.root.inputs else None
         binary_op_output = context.root.outputs[0] if context.root.outputs else None
         return _check_expand_removable(
             x, shape, y, expand_output=expand_output, binary_op_output=binary_op_output
         )
 
-    def rewrite(self, op, x: ir.Value, shape: ir.Value, y: ir.Value) -> ir.Value:
-        return getattr(op, self._op_type)(x, y)
+    def rewrite(
+        self, op, x: ir.Value, shape: ir.Value, y: ir.Value, binary_out: ir.Value
+    ) -> ir.Value:
+        # Keep the attributes of the binary op (e.g. fmod of Mod, direction of BitShift).
+        return getattr(op, self._op_type)(x, y, **binary_out.producer().attributes)
 
 
 class _ExpandSecondInput(RewriteRuleClassBase):
@@ -277,17 +280,20 @@ class _ExpandSecondInput(RewriteRuleClassBase):
         self._op_type = op_type
 
     def pattern(self, op, x, y, shape):
-        return getattr(op, self._op_type)(x, op.Expand(y, shape))
+        return getattr(op, self._op_type)(x, op.Expand(y, shape), _outputs=["binary_out"])
 
-    def check(self, context, x: ir.Value, y: ir.Value, shape: ir.Value) -> MatchResult:
+    def check(self, context, x: ir.Value, y: ir.Value, shape: ir.Value, **_) -> MatchResult:
         expand_output = context.root.inputs[1] if context.root.inputs else None
         binary_op_output = context.root.outputs[0] if context.root.outputs else None
         return _check_expand_removable(
             y, shape, x, expand_output=expand_output, binary_op_output=binary_op_output
         )
 
-    def rewrite(self, op, x: ir.Value, y: ir.Value, shape: ir.Value) -> ir.Value:
-        return getattr(op, self._op_type)(x, y)
+    def rewrite(
+        self, op, x: ir.Value, y: ir.Value, shape: ir.Value, binary_out: ir.Value
+    ) -> ir.Value:
+        # Keep the attributes of the binary op (e.g. fmod of Mod, direction of BitShift).
+        return getattr(op, self._op_type)(x, y, **binary_out.producer().attributes)
 
 
 def _make_expand_before_binary_op_rules() -> list:
